@@ -544,6 +544,14 @@ func (p *Parser) evaluateValues(ctx context) (evaluatedValues, error) {
 	}, nil
 }
 
+// checkValueProvided makes sure an expression which is used as a value actually provides one.
+func (p *Parser) checkValueProvided(expr Expression, token lexer.Token) error {
+	if call, ok := expr.(FunctionCall); ok && len(call.ReturnTypes()) == 0 {
+		return p.expectedError(fmt.Sprintf(`return value from function "%s"`, call.Name()), token)
+	}
+	return nil
+}
+
 func (p *Parser) evaluateBuiltInFunction(tokenType lexer.TokenType, keyword string, minArgs int, maxArg int, ctx context, stmtCallout func(keywordToken lexer.Token, expressions []Expression) (Statement, error)) (Statement, error) {
 	keywordToken := p.eat()
 
@@ -562,7 +570,13 @@ func (p *Parser) evaluateBuiltInFunction(tokenType lexer.TokenType, keyword stri
 	// Evaluate arguments if it's a print call with arguments.
 	if nextToken.Type() != lexer.CLOSING_ROUND_BRACKET {
 		for {
+			exprToken := p.peek()
 			expr, err := p.evaluateExpression(ctx)
+
+			if err != nil {
+				return nil, err
+			}
+			err = p.checkValueProvided(expr, exprToken)
 
 			if err != nil {
 				return nil, err
@@ -2390,6 +2404,11 @@ func (p *Parser) evaluateArguments(typeName string, name string, params []Variab
 		var expr Expression
 		argToken := nextToken
 		expr, err = p.evaluateExpression(ctx)
+
+		if err != nil {
+			return nil, err
+		}
+		err = p.checkValueProvided(expr, argToken)
 
 		if err != nil {
 			return nil, err
